@@ -69,4 +69,36 @@ theorem drops_keep (ds : List Nat) (w : W) :
     simp only [List.map_cons, List.foldl_cons]
     exact ⟨a.trans h1.1, b.trans h1.2⟩
 
+def cloneOf (p : Nat × List Nat) : Op := .clone p.1
+
+theorem clones_spec (ps : List (Nat × List Nat)) (w : W) (hi : Inv w) (hsz : ∀ n, Gen.shmObjectSize n = n)
+    (hlive : ∀ p ∈ ps, ∃ h, w.hs[p.1]? = some (some (h, p.2))) :
+    ∃ nw : List (Handle × List Nat), nw.map Prod.snd = ps.map Prod.snd ∧
+      ((ps.map cloneOf).foldl step w).hs = w.hs ++ nw.map some ∧
+      ((ps.map cloneOf).foldl step w).flight = w.flight := by
+  induction ps generalizing w with
+  | nil => exact ⟨[], rfl, by simp, rfl⟩
+  | cons p ps ih =>
+    obtain ⟨h, hh⟩ := hlive p (List.mem_cons_self ..)
+    obtain ⟨_, _, o, ho, _, _⟩ := hi.2.1 p.1 h p.2 hh
+    have hc : ∃ k' h', clone w.k h = some (k', h') := by
+      simp only [clone, ho, Option.map_some]; exact ⟨_, _, rfl⟩
+    obtain ⟨k', h', hc⟩ := hc
+    have hstep : step w (cloneOf p) = ⟨k', w.hs ++ [some (h', p.2)], w.flight⟩ := by
+      simp only [cloneOf, step, hh, hc]
+    have hi1 : Inv (step w (cloneOf p)) := inv_step w _ hsz hi
+    have hlive1 : ∀ q ∈ ps, ∃ h, (step w (cloneOf p)).hs[q.1]? = some (some (h, q.2)) := by
+      intro q hq
+      obtain ⟨hq', hqq⟩ := hlive q (List.mem_cons_of_mem _ hq)
+      refine ⟨hq', ?_⟩
+      rw [hstep]
+      have hlt : q.1 < w.hs.length := (List.getElem?_eq_some_iff.mp hqq).1
+      simp only [List.getElem?_append_left hlt]; exact hqq
+    obtain ⟨nw, hnw, hhs, hfl⟩ := ih (step w (cloneOf p)) hi1 hlive1
+    refine ⟨(h', p.2) :: nw, by simp [hnw], ?_, ?_⟩
+    · simp only [List.map_cons, List.foldl_cons]
+      rw [hhs, hstep]; simp
+    · simp only [List.map_cons, List.foldl_cons]
+      rw [hfl, hstep]
+
 end Shm
